@@ -54,6 +54,10 @@ GA_TableCap ==
 GA_CapForms ==
   \A r \in Rows : /\ (r.exp.kind = "ok" /\ r.exp.root.t = "lit") => (UriPrefix(P) /\ ~Has(r.exp.root.lit, "/"))
                   /\ UriPrefix(P) => (r.exp.kind = "ok" /\ r.exp.root.t = "lit")
+\* DIRCAP:./x is x below DIRCAP (the older form, still allowed): the ":." never stays on the cap
+GA_ColonDotSlash ==
+  \A r \in Rows : (r.exp.kind = "ok" /\ r.exp.root.t = "lit") =>
+      LET n == Len(r.exp.root.lit) IN ~(n >= 2 /\ r.exp.root.lit[n - 1] = ":" /\ r.exp.root.lit[n] = "." /\ Len(P) > n /\ P[n + 1] = "/")
 \* "tahoe ls" = "tahoe ls tahoe:"; "REMOTE_FILE is assumed to start with tahoe: unless otherwise specified"
 GA_DefaultIsTahoe ==
   \A r \in Rows : (Judged(r) /\ r.dflt = "tahoe" /\ ~Has(P, ":") /\ ~UriPrefix(P)) =>
